@@ -108,6 +108,21 @@ class MeasureCpu(Contract):
         sites = got["flat"].sites
         cl += _site_clauses(S, sites, lambda st: (zr(st.value[0]), sym.to_z3(st.value[1]), sym.to_z3(st.value[2])), rmax, src_m, tgt_m, "cpu")
         cl.append(("voxel_size_and_count_forwarded", z3.And(sym.to_z3(got["args"][0]) == S.n.t, zr(got["args"][1]) == inp["voxel"].t), ()))
+        # the pre-filter must not lose anything: whatever ball is asked of the KD-tree for the i-th source, every target that is strictly
+        # admissible for that source lies in it (the candidates' completeness clause below starts from the ball-query result)
+        bq = getattr(cx, "ball_queries", [])
+        cl.append(("one_ball_query_over_targets_for_sources", z3.BoolVal(len(bq) == 1)))
+        if len(bq) == 1:
+            nl = bq[0]
+            i, n = z3.Ints("i!bq n!bq")
+            src, tgt = nl.queries.il.f(i), nl.tree.pts.il.f(n)
+            d, nv = S.d(src, tgt), S.normals.vec(src)
+            d2 = sum(x * x for x in d)
+            proj = sum(d[k] * nv[k] for k in range(3))
+            r = sym.real(sym.to_z3(nl.r))
+            hy = [i >= 0, i < nl.queries.il.len.t, n >= 0, n < nl.tree.pts.il.len.t, S.unit(src), d2 < rmax * rmax, proj > 0, proj * proj > S.c * S.c * d2]
+            cl.append(("ball_query_keeps_every_strictly_admissible_target", kernels.dist2(nl.tree.pts.vec_at(n), nl.queries.vec_at(i)) <= r * r, ("poly", "linear"), hy))
+            cl.append(("ball_query_rows_are_the_sources_and_tree_rows_the_targets", z3.BoolVal(nl.queries.il.mask is src_m and nl.tree.pts.il.mask is tgt_m)))
         return cl
 
     def cross(self, cfg, paths):
@@ -329,6 +344,9 @@ class GreedySpec(kernels.InvSpec):
                     if v is obj:
                         out.setdefault(role, k)
             e = e.parent
+        # an implementation without a separate set of assigned sources: the valid mask itself says which sources are assigned
+        if "source_assigned" not in out and "valid_mask" in out:
+            out["source_assigned"] = out["valid_mask"]
         return out
 
     def inv(self, k, S, G):
@@ -381,8 +399,11 @@ class ProcessMatches(Contract):
                 sort = {"float32": "Real", "bool_": "Bool", "int32": "Int"}.get(dtype, "Real")
                 o = kernels.FnArr.const(0, shape, sort, f"zeros_{sort}")
                 role = {"float32": "thickness_results", "bool_": "valid_mask", "int32": "point_pairs"}.get(dtype)
+                made = holder.setdefault("made", {})
+                if role == "point_pairs" and role in made:
+                    role = "target_assigned"  # a second integer array: the targets' bookkeeping kept as an array (seen through truthiness)
                 if role:
-                    holder.setdefault("made", {}).setdefault(role, o)
+                    made.setdefault(role, o)
                 return o
 
         def mkset(*a):
